@@ -440,6 +440,17 @@ def main():
             if os.path.exists(os.path.join('/verif/benign', f_)):
                 ext.append({'name': 'agent3-%s-r%d' % (k_, i_), 'patch': f_, 'properties': sorted(set(ext_props[k_]) | ({'C08', 'C09', 'C10', 'C15', 'C16'} if k_ in 'fu' else {'C08', 'C10'})),
                             'note': (notes.get('r%d' % i_, {}).get('what') or '')[:200], 'origin': 'sub-agent'})
+    # fourth batch (after round 4 of the seeded changes; equivalent re-formulations, De Morgan, extracted helpers with reference parameters)
+    for k_ in ext_props:
+        notes = {}
+        np_ = os.path.join('/verif/benign', 'agent4-%s-notes.json' % k_)
+        if os.path.exists(np_):
+            notes = {n_['name']: n_ for n_ in json.load(open(np_))}
+        for i_ in range(1, 7):
+            f_ = 'agent4-%s-r%d.patch' % (k_, i_)
+            if os.path.exists(os.path.join('/verif/benign', f_)):
+                ext.append({'name': 'agent4-%s-r%d' % (k_, i_), 'patch': f_, 'properties': list(ALLP),
+                            'note': (notes.get('r%d' % i_, {}).get('what') or '')[:200], 'origin': 'sub-agent'})
     idx = {'mutants': [{k: v for k, v in m.items() if k not in ('pairs', 'extra_edits', 'all_occurrences')} for m in M],
            'benign': [{k: v for k, v in m.items() if k not in ('pairs', 'extra_edits')} for m in G] + ext}
     json.dump(idx, open('/verif/mutants/index.json', 'w'), indent=1)
